@@ -378,7 +378,12 @@ def replay_file(path):
     if not ok:
         print("BUILD FAILED")
         return 2
-    cmd = cmdline(doc["scenario"], doc["run_seed"], doc.get("params", {}), doc.get("work"), doc.get("fault"), 900)
+    work, fault = doc.get("work"), doc.get("fault")
+    if not work and not fault and not doc.get("minimisation", {}).get("orig_work_len"):
+        # a run that died in a sanitizer report has no recorded choice lists: it is replayed from its seed
+        # (an explicit empty list would mean "every choice 0", which is another run)
+        work = fault = None
+    cmd = cmdline(doc["scenario"], doc["run_seed"], doc.get("params", {}), work, fault, 900)
     r = run_single(cmd + " trace_level=3", wall=900)
     k, cls, sig, det = classify(r)
     print(json.dumps({"kind": k, "class": cls, "detail": det, "trace_hash": r.get("trace_hash")}, indent=1))
